@@ -12,6 +12,12 @@ A *diagram* is the JSON-able Python mirror of lean/PyxModel/Extract/Diagram.lean
                    'kind': ['simple', END, END, [REF...]] | ['linked', END, END, linkcls, [REF...], [REF...]]
                          | ['subsup', supercls, [[subcls, [REF...]]...]] | ['derived']}]}
   P = None | ['pkg', id] | ['comp', id];  END = [cls, mult, cond, phrase];  REF = [rattr, iattr]
+  optional  'loose': [[cls, attr]...]   attributes related across R102 that are off the R103 chain
+            'rows':  [{'id', 'numb', 'parent', 'rows': ROWS}]   relationships given row by row (lean: RelRows), for
+                     everything 'rels' cannot express (unformalised simple relationships, missing end rows, no / two
+                     R206 subtype rows);  ROWS = {'simp','assoc','subsup','comp': bool, 'form': END|None, 'parts': [END],
+                     'refs': [REF], 'aone','aoth': END|None, 'assr': cls|None, 'refs_one','refs_oth': [REF],
+                     'super': cls|None, 'subs': [[cls, [REF]]]}
 
 Identifiers are the raw UNIQUE_ID integers of the population (so `decode(load(encode(d))) == d`);
 generated diagrams draw all identifiers from one counter, real models keep their uuids.
@@ -185,7 +191,7 @@ def rows_of(d):
                 return i['num']
         return 0
 
-    numb_of = {r['id']: r['numb'] for r in d['rels']}
+    numb_of = {r['id']: r['numb'] for r in d['rels'] + d.get('rows', [])}
 
     def cached(rel, rto_cls, iattr):
         """the redundant name columns BridgePoint keeps on O_REF (RObj_Name, RAttr_Name, Rel_Name); they go stale
@@ -260,14 +266,96 @@ def rows_of(d):
                                  cached(rid, sup, iattr)))
         else:
             rows.append(('R_COMP', [rid, '']))
+    for r in d.get('rows', []):
+        rid, w = r['id'], r['rows']
+        rows.append(('R_REL', [rid, r['numb'], '', 0]))
+        pe(rid, 9, r['parent'])
+        for flag, table, vals in (('simp', 'R_SIMP', [rid]), ('assoc', 'R_ASSOC', [rid]), ('subsup', 'R_SUBSUP', [rid]),
+                                  ('comp', 'R_COMP', [rid, ''])):
+            if w[flag]:
+                rows.append((table, vals))
+        foir = None
+        if w['form']:
+            f = w['form']
+            foir = new_id()
+            rows.append(('R_OIR', [f[0], rid, foir, 0]))
+            rows.append(('R_RGO', [f[0], rid, foir]))
+            rows.append(('R_FORM', [f[0], rid, foir, int(f[1]), int(f[2]), f[3]]))
+        poirs = []
+        for j, p in enumerate(w['parts']):
+            poir = new_id()
+            poirs.append(poir)
+            oid = oid_for(p[0], [x[1] for x in w['refs']]) if j == 0 else 0
+            rows.append(('R_OIR', [p[0], rid, poir, 0]))
+            rows.append(('R_RTO', [p[0], rid, poir, oid]))
+            rows.append(('R_PART', [p[0], rid, poir, int(p[1]), int(p[2]), p[3]]))
+        if w['refs'] and w['parts']:
+            # the referring end: R_FORM, without one the second participant
+            src = (w['form'][0], foir) if w['form'] else (w['parts'][1][0], poirs[1]) if len(w['parts']) > 1 else None
+            if src is not None:
+                refs(rid, src[0], src[1], w['parts'][0][0], poirs[0], oid_for(w['parts'][0][0], [x[1] for x in w['refs']]),
+                     w['refs'])
+        loir = None
+        if w['assr'] is not None:
+            loir = new_id()
+            rows.append(('R_OIR', [w['assr'], rid, loir, 0]))
+            rows.append(('R_RGO', [w['assr'], rid, loir]))
+            rows.append(('R_ASSR', [w['assr'], rid, loir, 0]))
+        for key, table, rkey in (('aone', 'R_AONE', 'refs_one'), ('aoth', 'R_AOTH', 'refs_oth')):
+            e = w[key]
+            if e is None:
+                continue
+            eoir = new_id()
+            oid = oid_for(e[0], [x[1] for x in w[rkey]])
+            rows.append(('R_OIR', [e[0], rid, eoir, 0]))
+            rows.append(('R_RTO', [e[0], rid, eoir, oid]))
+            rows.append((table, [e[0], rid, eoir, int(e[1]), int(e[2]), e[3]]))
+            if w[rkey] and loir is not None:
+                refs(rid, w['assr'], loir, e[0], eoir, oid, w[rkey])
+        soir = None
+        if w['super'] is not None:
+            soir = new_id()
+            soid = oid_for(w['super'], [x[1] for sb in w['subs'] for x in sb[1]])
+            rows.append(('R_OIR', [w['super'], rid, soir, 0]))
+            rows.append(('R_RTO', [w['super'], rid, soir, soid]))
+            rows.append(('R_SUPER', [w['super'], rid, soir]))
+        seen = set()
+        for sub, rs in w['subs']:
+            boir = new_id()
+            rows.append(('R_OIR', [sub, rid, boir, 0]))
+            rows.append(('R_RGO', [sub, rid, boir]))
+            rows.append(('R_SUB', [sub, rid, boir]))
+            if soir is not None:
+                for rattr, iattr in rs:
+                    if iattr not in seen:
+                        seen.add(iattr)
+                        rows.append(('O_RTIDA', [iattr, w['super'], soid, rid, soir]))
+                    rows.append(('O_REF', [sub, w['super'], soid, iattr, rid, boir, soir, rattr, new_id(), 0, 0, ''] +
+                                 cached(rid, w['super'], iattr)))
     return rows
 
 
 def encode(d, rng=None):
     """the .xtuml text of a diagram; the INSERT statements are shuffled when an rng is given"""
-    texts = [_row_text(t, v) for t, v in rows_of(d)]
+    rows = rows_of(d)
+    texts = [_row_text(t, v) for t, v in rows]
     if rng is not None:
-        rng.shuffle(texts)
+        # the order of the R_PART rows of ONE relationship is part of the diagram ('rows': an unformalised simple
+        # relationship is directed from its second participant row to the first); everything else is shuffled
+        group = {}
+        for i, (t, v) in enumerate(rows):
+            if t == 'R_PART':
+                group.setdefault(v[1], []).append(texts[i])
+        order = list(range(len(texts)))
+        rng.shuffle(order)
+        shuffled = [texts[i] for i in order]
+        cursor = {k: 0 for k in group}
+        for pos, i in enumerate(order):
+            t, v = rows[i]
+            if t == 'R_PART' and len(group[v[1]]) > 1:
+                shuffled[pos] = group[v[1]][cursor[v[1]]]
+                cursor[v[1]] += 1
+        texts = shuffled
     return '-- generated by harness/ooa_encoder.py\n' + ''.join(texts)
 
 
@@ -364,36 +452,56 @@ def decode(m):
         il = [{'num': i.Oid_ID, 'attrs': list(oidas.get((c.Obj_ID, i.Oid_ID), []))} for i in oids.get(c.Obj_ID, [])]
         d['classes'].append({'id': c.Obj_ID, 'kl': c.Key_Lett, 'attrs': al, 'idents': il,
                              'parent': _parent_of(m, c.Obj_ID, pe_by_id)})
-    by_rel = lambda kind: {x.Rel_ID: x for x in sel(kind)}
-    simp, assoc, subsup, comp = by_rel('R_SIMP'), by_rel('R_ASSOC'), by_rel('R_SUBSUP'), by_rel('R_COMP')
-    form, aone, aoth, assr, sup = by_rel('R_FORM'), by_rel('R_AONE'), by_rel('R_AOTH'), by_rel('R_ASSR'), by_rel('R_SUPER')
-    parts, subs = {}, {}
+    first_by_rel = lambda kind: {x.Rel_ID: x for x in reversed(list(sel(kind)))}        # first row wins
+    simp, assoc, subsup, comp = (first_by_rel(k) for k in ('R_SIMP', 'R_ASSOC', 'R_SUBSUP', 'R_COMP'))
+    form, aone, aoth, assr, sup = (first_by_rel(k) for k in ('R_FORM', 'R_AONE', 'R_AOTH', 'R_ASSR', 'R_SUPER'))
+    parts, subs, nform = {}, {}, {}
     for x in sel('R_PART'):
         parts.setdefault(x.Rel_ID, []).append(x)
     for x in sel('R_SUB'):
         subs.setdefault(x.Rel_ID, []).append(x)
+    for x in sel('R_FORM'):
+        nform[x.Rel_ID] = nform.get(x.Rel_ID, 0) + 1
     orefs = {}
     for x in sel('O_REF'):
         orefs.setdefault((x.Rel_ID, x.OIR_ID, x.ROIR_ID), []).append([x.Attr_ID, x.RAttr_ID])
     end = lambda x: [x.Obj_ID, bool(x.Mult), bool(x.Cond), x.Txt_Phrs]
     for r in sel('R_REL'):
         rid = r.Rel_ID
-        if rid in simp and rid in form and len(parts.get(rid, [])) == 1:
-            f, p = form[rid], parts[rid][0]
+        nsub = sum(1 for t in (simp, assoc, subsup, comp) if rid in t)
+        ps = parts.get(rid, [])
+        kind = None
+        if nsub == 1 and rid in simp and rid in form and len(ps) == 1 and nform[rid] == 1:
+            f, p = form[rid], ps[0]
             kind = ['simple', end(f), end(p), orefs.get((rid, f.OIR_ID, p.OIR_ID), [])]
-        elif rid in assoc and rid in aone and rid in aoth and rid in assr:
+        elif nsub == 1 and rid in assoc and rid in aone and rid in aoth and rid in assr:
             o, t, l = aone[rid], aoth[rid], assr[rid]
             kind = ['linked', end(o), end(t), l.Obj_ID, orefs.get((rid, l.OIR_ID, o.OIR_ID), []),
                     orefs.get((rid, l.OIR_ID, t.OIR_ID), [])]
-        elif rid in subsup and rid in sup:
+        elif nsub == 1 and rid in subsup and rid in sup:
             s = sup[rid]
             kind = ['subsup', s.Obj_ID, [[b.Obj_ID, orefs.get((rid, b.OIR_ID, s.OIR_ID), [])]
                                         for b in subs.get(rid, [])]]
-        elif rid in comp:
+        elif nsub == 1 and rid in comp:
             kind = ['derived']
-        else:
-            kind = ['unsupported']      # e.g. an unformalised simple relationship: outside the domain
-        d['rels'].append({'id': rid, 'numb': r.Numb, 'kind': kind, 'parent': _parent_of(m, rid, pe_by_id)})
+        if kind is not None:
+            d['rels'].append({'id': rid, 'numb': r.Numb, 'kind': kind, 'parent': _parent_of(m, rid, pe_by_id)})
+            continue
+        # anything else: row by row
+        f = form.get(rid)
+        src = f if f is not None else ps[1] if len(ps) > 1 else None
+        l, o, t, s = assr.get(rid), aone.get(rid), aoth.get(rid), sup.get(rid)
+        w = {'simp': rid in simp, 'assoc': rid in assoc, 'subsup': rid in subsup, 'comp': rid in comp,
+             'form': end(f) if f is not None else None, 'parts': [end(p) for p in ps],
+             'refs': orefs.get((rid, src.OIR_ID, ps[0].OIR_ID), []) if (src is not None and ps) else [],
+             'aone': end(o) if o is not None else None, 'aoth': end(t) if t is not None else None,
+             'assr': l.Obj_ID if l is not None else None,
+             'refs_one': orefs.get((rid, l.OIR_ID, o.OIR_ID), []) if (l is not None and o is not None) else [],
+             'refs_oth': orefs.get((rid, l.OIR_ID, t.OIR_ID), []) if (l is not None and t is not None) else [],
+             'super': s.Obj_ID if s is not None else None,
+             'subs': [[b.Obj_ID, orefs.get((rid, b.OIR_ID, s.OIR_ID), []) if s is not None else []]
+                      for b in subs.get(rid, [])]}
+        d.setdefault('rows', []).append({'id': rid, 'numb': r.Numb, 'rows': w, 'parent': _parent_of(m, rid, pe_by_id)})
     return d
 
 
@@ -418,18 +526,21 @@ def normal_diagram(d):
                            for c in d['classes']), key=repr),
         'rels': [],
     }
-    for r in d['rels']:
-        k = r['kind']
-        if k[0] == 'simple':
-            kk = ['simple', list(k[1]), list(k[2]), sorted(map(list, k[3]))]
-        elif k[0] == 'linked':
-            kk = ['linked', list(k[1]), list(k[2]), k[3], sorted(map(list, k[4])), sorted(map(list, k[5]))]
-        elif k[0] == 'subsup':
-            kk = ['subsup', k[1], sorted([s[0], sorted(map(list, s[1]))] for s in k[2])]
-        else:
-            kk = list(k)
-        out['rels'].append([r['id'], r['numb'], kk, par(r['parent'])])
-    out['rels'].sort(key=repr)
+    # every relationship row by row (a regular relationship and the same one given by its rows compare equal); the
+    # Obj_ID of an end is read through R_OIR -> O_OBJ: an end of a class that does not exist reads None
+    out['rows'] = []
+    have = {c['id'] for c in d['classes']}
+    cid = lambda c: c if c in have else None
+    end = lambda e: e and [cid(e[0])] + list(e[1:])
+    for r in [dict(x, rows=rows_of_kind(x['kind'])) for x in d['rels']] + list(d.get('rows', [])):
+        w = r['rows']
+        out['rows'].append([r['id'], r['numb'], par(r['parent']),
+                            [w['simp'], w['assoc'], w['subsup'], w['comp']], end(w['form']),
+                            [end(p) for p in w['parts']], sorted(map(list, w['refs'])),
+                            end(w['aone']), end(w['aoth']), w['assr'] and cid(w['assr']),
+                            sorted(map(list, w['refs_one'])), sorted(map(list, w['refs_oth'])), w['super'] and cid(w['super']),
+                            sorted([cid(sb[0]), sorted(map(list, sb[1]))] for sb in w['subs'])])
+    out['rows'].sort(key=repr)
     return out
 
 
@@ -495,8 +606,20 @@ def diagram_sexp(d):
         [[c['id'], c['kl'], [[a['id'], a['name'], [Sym(a['kind'][0])] + list(a['kind'][1:])] for a in c['attrs']],
           [[i['num'], list(i['attrs'])] for i in c['idents']], _p_sexp(c['parent'])] for c in d['classes']],
         [[r['id'], r['numb'], kind_rel(r['kind']), _p_sexp(r['parent'])] for r in d['rels']],
-    ] + ([[[x[0], [x[1]['id'], x[1]['name'], [Sym(x[1]['kind'][0])] + list(x[1]['kind'][1:])]] for x in d['loose']]]
-         if d.get('loose') else [])
+    ] + ([[[x[0], [x[1]['id'], x[1]['name'], [Sym(x[1]['kind'][0])] + list(x[1]['kind'][1:])]] for x in d.get('loose', [])]]
+         if (d.get('loose') or d.get('rows')) else []) + ([[_rowrel_sexp(r) for r in d['rows']]] if d.get('rows') else [])
+
+
+def _rowrel_sexp(r):
+    w = r['rows']
+    end = lambda e: Sym('none') if e is None else [e[0], bool(e[1]), bool(e[2]), e[3]]
+    opt = lambda x: Sym('none') if x is None else x
+    refs = lambda rs: [list(x) for x in rs]
+    return [r['id'], r['numb'],
+            [[bool(w['simp']), bool(w['assoc']), bool(w['subsup']), bool(w['comp'])], end(w['form']),
+             [end(p) for p in w['parts']], refs(w['refs']), end(w['aone']), end(w['aoth']), opt(w['assr']),
+             refs(w['refs_one']), refs(w['refs_oth']), opt(w['super']), [[sb[0], refs(sb[1])] for sb in w['subs']]],
+            _p_sexp(r['parent'])]
 
 
 # --------------------------------------------------------------------------- the specification in Python (oracle)
@@ -750,6 +873,183 @@ def break_resolution(rng, d, fresh):
     return d
 
 
+def empty_rows():
+    return {'simp': False, 'assoc': False, 'subsup': False, 'comp': False, 'form': None, 'parts': [], 'refs': [],
+            'aone': None, 'aoth': None, 'assr': None, 'refs_one': [], 'refs_oth': [], 'super': None, 'subs': []}
+
+
+def rows_of_kind(k):
+    """the rows of a relationship of one of the four regular shapes"""
+    w = empty_rows()
+    if k[0] == 'simple':
+        w.update(simp=True, form=list(k[1]), parts=[list(k[2])], refs=[list(x) for x in k[3]])
+    elif k[0] == 'linked':
+        w.update(assoc=True, aone=list(k[1]), aoth=list(k[2]), assr=k[3], refs_one=[list(x) for x in k[4]],
+                 refs_oth=[list(x) for x in k[5]])
+    elif k[0] == 'subsup':
+        w.update(subsup=True, super=k[1], subs=[[s[0], [list(x) for x in s[1]]] for s in k[2]])
+    else:
+        w.update(comp=True)
+    return w
+
+
+def py_rows_class(d, w):
+    """what a row-given relationship is, read off the rows alone (the table of lean/Props/C14.lean):
+         'no-subtype'                 no R206 subtype row                       (mk_association: TypeError)
+         'silent'                     R_COMP, or a subtype relationship without subtypes
+         'incomplete'                 an end row is missing                     (AttributeError)
+         'unresolved'                 a class / attribute row it names is missing (AttributeError)
+         'formalised' | 'unformalised' | 'partly-formalised'   all rows there: does every association have O_REFs"""
+    kind = 'linked' if w['assoc'] else 'comp' if w['comp'] else 'simple' if w['simp'] else 'subsup' if w['subsup'] else None
+    if kind is None:
+        return 'no-subtype'
+    if kind == 'comp' or (kind == 'subsup' and not w['subs']):
+        return 'silent'
+
+    def pair(rgo, rto, rs):
+        rc, tc = _find(d['classes'], 'id', rgo), _find(d['classes'], 'id', rto)
+        return rc is not None and tc is not None and all(
+            _find(rc['attrs'], 'id', x[0]) is not None and _find(tc['attrs'], 'id', x[1]) is not None for x in rs)
+    if kind == 'linked':
+        if w['aone'] is None or w['aoth'] is None or w['assr'] is None:
+            return 'incomplete'
+        ok = pair(w['assr'], w['aone'][0], w['refs_one']) and pair(w['assr'], w['aoth'][0], w['refs_oth'])
+        lists = [w['refs_one'], w['refs_oth']]
+    elif kind == 'simple':
+        src = w['form'] if w['form'] else (w['parts'][1] if len(w['parts']) > 1 else None)
+        if src is None or not w['parts']:
+            return 'incomplete'
+        ok = pair(src[0], w['parts'][0][0], w['refs'])
+        lists = [w['refs'] if w['form'] else []]          # without R_FORM a simple relationship is not formalised
+    else:
+        if w['super'] is None:
+            return 'incomplete'
+        ok = all(pair(sb[0], w['super'], sb[1]) for sb in w['subs'])
+        lists = [sb[1] for sb in w['subs']]
+    if not ok:
+        return 'unresolved'
+    n = sum(1 for l in lists if l)
+    return 'formalised' if n == len(lists) else 'unformalised' if n == 0 else 'partly-formalised'
+
+
+def gen_row_rels(rng, d, fresh, want=None):
+    """add relationships outside the formalised shapes to a copy of diagram `d`: returns (diagram, [labels]).
+    Regular shapes with EMPTY O_REF lists stay in 'rels' (the regular model covers them), everything else goes to 'rows'.
+    At most one relationship that makes mk_association raise."""
+    import copy
+    d = copy.deepcopy(d)
+    d.setdefault('rows', [])
+    cl = [c for c in d['classes']]
+    used = {r['numb'] for r in d['rels']}
+    numbs = [n for n in range(40, 70) if n not in used]
+    rng.shuffle(numbs)
+    labels = []
+
+    def end(c):
+        return [c['id'], rng.random() < 0.5, rng.random() < 0.5, rng.choice(PHRASES) + (' %d' % rng.randint(1, 99))]
+
+    def parent_of(c):
+        return c['parent']
+
+    formal = [r for r in d['rels'] if r['kind'][0] in ('simple', 'linked', 'subsup')]
+    benign = ['unformal', 'unformal', 'unformal-reflexive', 'linked-unformal', 'linked-unformal-rows', 'sub-unformal',
+              'zero-subs', 'zero-subs-no-super', 'comp-rows', 'unformal', 'form-two-parts', 'two-subtypes-comp',
+              'linked-half', 'two-subtypes-simp']
+    faulty = ['no-subtype', 'one-part', 'form-only', 'simp-bare', 'linked-no-aone', 'linked-no-aoth', 'linked-no-assr',
+              'linked-bare', 'subs-no-super', 'two-subtypes-assoc', 'unformal-ghost']
+    picks = [rng.choice(benign) for _ in range(rng.randint(1, 3))]
+    if rng.random() < 0.45:
+        picks.insert(rng.randint(0, len(picks)), rng.choice(faulty))
+    if want:
+        picks = list(want)
+    for what in picks:
+        if not numbs or not cl:
+            break
+        a, b, c = rng.choice(cl), rng.choice(cl), rng.choice(cl)
+        w = empty_rows()
+        rid, numb = fresh(), numbs.pop()
+        as_rel = None
+        par = parent_of(a)
+        if what in ('unformal', 'unformal-reflexive', 'unformal-ghost'):
+            if what == 'unformal-reflexive':
+                b = a
+            w.update(simp=True, parts=[end(a), end(b)])
+            if what == 'unformal-ghost':
+                w['parts'][rng.choice([0, 1])][0] = fresh()         # a participant whose class row is missing
+        elif what == 'form-two-parts':
+            # (an unformalised relationship never has O_REF rows that count: O_REF.OIR_ID is read through R111 to an
+            # R_RGO row, which a participant does not have)
+            src = [r for r in formal if r['kind'][0] == 'simple']
+            if not src:
+                continue
+            r0 = rng.choice(src)
+            k = r0['kind']
+            w.update(simp=True, form=list(k[1]), parts=[list(k[2]), end(c)], refs=[list(x) for x in k[3]])
+            par = r0['parent']
+        elif what in ('linked-unformal', 'linked-unformal-rows', 'linked-half'):
+            if what == 'linked-half':
+                src = [r for r in formal if r['kind'][0] == 'linked']
+                if not src:
+                    continue
+                r0 = rng.choice(src)
+                k = copy.deepcopy(r0['kind'])
+                k[rng.choice([4, 5])] = []
+                as_rel, par = k, r0['parent']
+            else:
+                k = ['linked', end(a), end(b if rng.random() < 0.7 else a), c['id'], [], []]
+                if what == 'linked-unformal':
+                    as_rel = k
+                else:
+                    w = rows_of_kind(k)
+                    w['comp'] = rng.random() < 0.3          # R_ASSOC is looked up before R_COMP
+        elif what == 'sub-unformal':
+            others = [x for x in cl if x is not a]
+            if not others:
+                continue
+            as_rel = ['subsup', a['id'], [[x['id'], []] for x in rng.sample(others, rng.randint(1, min(2, len(others))))]]
+        elif what == 'zero-subs':
+            as_rel = ['subsup', a['id'], []]
+        elif what == 'zero-subs-no-super':
+            w.update(subsup=True)
+        elif what == 'comp-rows':
+            w.update(comp=True, simp=rng.random() < 0.5, subsup=rng.random() < 0.3)
+            if w['simp'] and rng.random() < 0.5:
+                w['parts'] = [end(a)]           # (end rows are reachable only through their own subtype row)
+        elif what == 'two-subtypes-comp':
+            w.update(comp=True, simp=True, parts=[end(a), end(b)])
+        elif what == 'two-subtypes-simp':
+            w.update(simp=True, subsup=True, parts=[end(a), end(b)], subs=[[c['id'], []]])      # R_SIMP before R_SUBSUP
+        elif what == 'two-subtypes-assoc':
+            w.update(assoc=True, simp=True, parts=[end(a), end(b)])         # R_ASSOC wins, and has no rows
+        elif what == 'no-subtype':
+            pass
+        elif what == 'one-part':
+            w.update(simp=True, parts=[end(a)])
+        elif what == 'form-only':
+            w.update(simp=True, form=end(a))
+        elif what == 'simp-bare':
+            w.update(simp=True)
+        elif what.startswith('linked-'):
+            w.update(assoc=True, aone=end(a), aoth=end(b), assr=c['id'])
+            drop = {'linked-no-aone': ['aone'], 'linked-no-aoth': ['aoth'], 'linked-no-assr': ['assr'],
+                    'linked-bare': ['aone', 'aoth', 'assr']}[what]
+            for key in drop:
+                w[key] = None
+        elif what == 'subs-no-super':
+            w.update(subsup=True, subs=[[b['id'], []]])
+        else:
+            raise ValueError(what)
+        if rng.random() < 0.15:
+            k0 = rng.choice(d['containers'])
+            par = ['comp' if k0['comp'] else 'pkg', k0['id']]
+        if as_rel is not None:
+            d['rels'].append({'id': rid, 'numb': numb, 'kind': as_rel, 'parent': par})
+        else:
+            d['rows'].append({'id': rid, 'numb': numb, 'rows': w, 'parent': par})
+        labels.append(what)
+    return d, labels
+
+
 def py_definable(schema):
     """can every define_class / define_association call for this (canonical) schema succeed: class names distinct
     when upper-cased, both classes of every association defined, every target key an attribute of the target"""
@@ -967,7 +1267,7 @@ KLS = ['A', 'B', 'C', 'D', 'E', 'F', 'G', 'H', 'Dog', 'Cat', 'Owner', 'Leash', '
 
 def gen_diagram(rng, max_classes=5, special_names=False, ensure_bare=False, ensure_unsupported=False,
                 ensure_empty_name=False, ensure_dangling_parent=False, empty_enum=False, loose_attrs=False,
-                dup_type_names=False):
+                dup_type_names=False, twin_idents=False, dup_key_letters=False, dup_rel_numbers=False):
     """a random well-formed class diagram; returns the diagram.  Every identifier is fresh (one counter)."""
     counter = [0]
 
@@ -1064,6 +1364,12 @@ def gen_diagram(rng, max_classes=5, special_names=False, ensure_bare=False, ensu
             else:
                 add_attr(c, ['base', rng.choice(supported)['id']])
         c['idents'].append({'num': 0, 'attrs': [a['id'] for a in prim]})
+        if twin_idents and rng.random() < 0.6:
+            # a second identifier over exactly the same attributes (possibly listed in the other order)
+            twin = [a['id'] for a in prim]
+            if rng.random() < 0.5:
+                twin.reverse()
+            c['idents'].append({'num': rng.choice([1, 2]), 'attrs': twin})
         d['classes'].append(c)
 
     def base_of(cls, attr):
@@ -1160,6 +1466,32 @@ def gen_diagram(rng, max_classes=5, special_names=False, ensure_bare=False, ensu
             if n not in nums and rng.random() < 0.35:
                 pick = rng.sample(c['attrs'], rng.randint(0, min(2, len(c['attrs']))))
                 c['idents'].append({'num': n, 'attrs': [a['id'] for a in pick]})
+    if dup_key_letters and d['classes']:
+        # two classes with the same key letters (or key letters that differ in letter case only) in different
+        # containers: a build whose scope holds only one of them is unaffected, a scope with both is refused
+        comps = [k for k in d['containers'] if k['comp']]
+        for _ in range(rng.randint(1, 2)):
+            c0 = rng.choice(d['classes'])
+            away = [k for k in comps if not py_contained(d, k['id'], c0['parent'])]
+            k2 = rng.choice(away) if away else rng.choice(d['containers'])
+            kl = c0['kl'] if rng.random() < 0.6 else c0['kl'].swapcase()
+            twin = {'id': nid(), 'kl': kl, 'attrs': [], 'idents': [], 'parent': ['comp' if k2['comp'] else 'pkg', k2['id']]}
+            prim = add_attr(twin, ['base', rng.choice(supported)['id']])
+            for _ in range(rng.randint(0, 2)):
+                add_attr(twin, ['base', rng.choice(supported)['id']])
+            twin['idents'].append({'num': 0, 'attrs': [prim['id']]})
+            d['classes'].append(twin)
+            if rng.random() < 0.7:
+                free = [n for n in range(1, 40) if n not in {r['numb'] for r in d['rels']}]
+                d['rels'].append({'id': nid(), 'numb': rng.choice(free),
+                                  'kind': ['simple', end(twin), end(twin), formalise(twin, twin)], 'parent': twin['parent']})
+    if dup_rel_numbers and len(d['rels']) >= 2:
+        # the same relationship number in two different containers (numbers are unique per package, not per model)
+        for _ in range(2):
+            r1, r2 = rng.sample(d['rels'], 2)
+            if r1['parent'] != r2['parent']:
+                r2['numb'] = r1['numb']
+                break
     if loose_attrs:
         # take attributes that nothing refers to off the R103 chain (R103 is conditional at both ends): some classes
         # partly, some entirely (only the first attribute keeps its place)
